@@ -459,6 +459,32 @@ def default(a, k, r):
     return None
 
 
+def defined_for(name: str, a: list, k: dict) -> bool:
+    """Inputs that are squarely the documented use of a list filter: the filter returns a list for them, it does not raise.  (Everything else -
+    mixed types, non-lists, odd keys - stays an open cell: an error there is not judged.)"""
+    if k or not a or type(a[0]) is not list:
+        return False
+    xs = a[0]
+    if name in ("reverse", "uniq", "compact") and len(a) == 1:
+        return all(type(x) in (str, int) for x in xs) or all(isinstance(x, dict) for x in xs)
+    if name in ("sort", "sort_natural") and len(a) == 1:
+        return _homogeneous(xs, (str,)) or (name == "sort" and _homogeneous(xs, (int,)))
+    if name in ("sort", "sort_natural", "map") and len(a) == 2:
+        if not _plain_str(a[1]) or not a[1] or not all(type(x) is dict for x in xs):
+            return False
+        vals = [x[a[1]] for x in xs if a[1] in x]
+        if name == "map":
+            return True
+        # the items are hashes and every value found under the key is a string (or, for sort, every one an integer): ties and items
+        # without the key included
+        return _homogeneous(vals, (str,)) or (name == "sort" and _homogeneous(vals, (int,)))
+    if name in ("where", "reject") and len(a) in (2, 3):
+        return _plain_str(a[1]) and bool(a[1]) and all(type(x) is dict for x in xs) and (len(a) == 2 or type(a[2]) in (str, int))
+    if name == "concat" and len(a) == 2:
+        return type(a[1]) is list
+    return False
+
+
 CONTRACTS = {
     "size": size, "upcase": upcase, "downcase": downcase, "capitalize": capitalize, "strip": strip, "lstrip": lstrip, "rstrip": rstrip,
     "split": split, "reverse": reverse, "sort": sort, "sort_natural": sort_natural, "uniq": uniq, "compact": compact, "concat": concat,
